@@ -17,7 +17,7 @@ from typing import Dict, List, Optional, Set, Tuple
 
 from ..model import Repo, ClassInfo, FuncInfo, AnalysisError, norm, parent, ancestors, const_str, enclosing_stmt
 from ..report import Ctx, RuleResult
-from ..exprs import bind_call
+from ..exprs import influences, bind_call
 from .. import facts
 
 SER = 'lark.utils:Serialize'
@@ -573,28 +573,8 @@ def run_load_reapply(ctx: Ctx) -> RuleResult:
         if isinstance(n, ast.Call) and 'T:lark.common:LexerConf' in ty.expr(init, n.func):
             b, _ = bind_call(n, lc_names)
             for p, a in b.items():
-                opts = {x.attr for x in ast.walk(a) if isinstance(x, ast.Attribute) and x.attr in defaults
-                        and norm(x.value).endswith('options')}
-                # through one local (re_module <- options.regex)
-                if isinstance(a, ast.Name):
-                    for d in init.body_nodes():
-                        if isinstance(d, ast.Assign) and any(isinstance(t, ast.Name) and t.id == a.id for t in d.targets):
-                            pass
-                    for d in init.body_nodes():
-                        if isinstance(d, ast.If):
-                            assigns = [s for s in ast.walk(d) if isinstance(s, ast.Assign)
-                                       and any(isinstance(t, ast.Name) and t.id == a.id for t in s.targets)]
-                            if assigns:
-                                tnames = {x.id for x in ast.walk(d.test) if isinstance(x, ast.Name)}
-                                for x in ast.walk(d.test):
-                                    if isinstance(x, ast.Attribute) and x.attr in defaults:
-                                        opts.add(x.attr)
-                                for tn in tnames:
-                                    for dd in init.body_nodes():
-                                        if isinstance(dd, ast.Assign) and any(isinstance(t, ast.Name) and t.id == tn for t in dd.targets):
-                                            for x in ast.walk(dd.value):
-                                                if isinstance(x, ast.Attribute) and x.attr in defaults:
-                                                    opts.add(x.attr)
+                # every option read that the argument depends on (data and control dependence inside __init__)
+                opts = {x.attr for x in influences(init, a) if x.attr in defaults and norm(x.value).endswith('options')}
                 if opts:
                     fresh_map[p] = opts
     load_map: Dict[str, Set[str]] = {}
@@ -604,7 +584,7 @@ def run_load_reapply(ctx: Ctx) -> RuleResult:
             if isinstance(n, ast.Assign):
                 for t in n.targets:
                     if isinstance(t, ast.Attribute) and 'C:lark.common:LexerConf' in ty.expr(f, t.value):
-                        opts = {x.attr for x in ast.walk(n.value) if isinstance(x, ast.Attribute) and x.attr in defaults}
+                        opts = {x.attr for x in influences(f, n.value) if x.attr in defaults}
                         load_map.setdefault(t.attr, set()).update(opts)
     res.tables['lexer_conf_fresh'] = {k: sorted(v) for k, v in fresh_map.items()}
     res.tables['lexer_conf_load'] = {k: sorted(v) for k, v in load_map.items()}
